@@ -47,13 +47,13 @@ theorem SameRd.setInitWin (d : Dir α) (order : List Nat) (v : Nat) : SameRd d (
   unfold Dir.setInitWin Dir.pass
   exact SameRd.trans (b := { d with initWin := v, streams := d.streams.mapWin _ }) ⟨rfl, rfl, rfl⟩ (SameRd.emitList _ _)
 
-theorem SameRd.applySettings (o : Dir α) (ord : Nat → List Nat) (k : Nat) (kvs : List (Nat × Nat)) :
-    SameRd o (applySettings o ord k kvs).1 := by
+theorem SameRd.applyEach (o : Dir α) (ord : Nat → List Nat) (k : Nat) (kvs : List (Nat × Nat)) :
+    SameRd o (applyEach o ord k kvs).1 := by
   induction kvs generalizing o k with
   | nil => exact SameRd.refl o
   | cons kv rest ih =>
     obtain ⟨id, v⟩ := kv
-    simp only [H2.applySettings]
+    simp only [H2.applyEach]
     split
     · exact (SameRd.setInitWin o (ord k) v).trans (ih _ _)
     · split
@@ -76,7 +76,7 @@ theorem process_other (d o : Dir α) (ord : Nat → List Nat) (op : Op α) : Sam
   | priority sid prio => exact SameRd.refl o
   | rst sid code => exact SameRd.refl o
   | windowUpdate sid inc => exact SameRd.windowUpdate o (ord 0) sid inc
-  | settings kvs => exact SameRd.applySettings o ord 0 kvs
+  | settings kvs => exact SameRd.applyEach o ord 0 (inForce kvs)
   | settingsAck => exact SameRd.refl o
   | ping ack data => exact SameRd.refl o
   | goAway last code debug => exact SameRd.refl o
